@@ -25,6 +25,10 @@ pub struct Case {
     creator: usize,
     /// successor members besides the creator, in key-package order
     others: Vec<usize>,
+    /// re-init parameters: 0 = given group id, same suite, no extensions; 1 = no group id
+    /// (the library draws one); 2 = group context extensions changed; 3 = other cipher suite
+    /// (2, P-256: every member continues with a fresh signature key of the new scheme)
+    variant: u8,
 }
 
 const SEEDS: [&str; 6] = ["dense3", "blank-interior3", "dense4", "blank-interior4", "after-rekey", "after-external-commit"];
@@ -169,16 +173,33 @@ fn run_case(c: &Case, ctx: &mut Ctx) {
         }
         // ---------------------------------------------------------------------- re-init
         let committer = old_members[0];
-        let built = match w.commit(committer, &CommitSpec { props: vec![Prop::ReInit], ..Default::default() }) {
+        let new_suite = mls_rs::CipherSuite::new(if c.variant == 3 { 2 } else { w.cfg.suite });
+        let new_ext = if c.variant == 2 { w.context_ext(Some(0x42)) } else { mls_rs::ExtensionList::new() };
+        let new_gid = if c.variant == 1 { None } else { Some(REINIT_GROUP_ID.to_vec()) };
+        let built = w
+            .gm(committer)
+            .commit_builder()
+            .reinit(new_gid.clone(), mls_rs::ProtocolVersion::MLS_10, new_suite, new_ext.clone())
+            .and_then(|b| match now {
+                Some(t) => b.commit_time(t).build(),
+                None => b.build(),
+            });
+        let built = match built {
             Ok(b) => b,
             Err(e) => {
                 ctx.violation(format!("reinit-commit-failed|{}", err_name(&e)), format!("{e:?} [{label}]"));
                 return;
             }
         };
+        ctx.goal(match c.variant {
+            1 => "reinit-without-group-id",
+            2 => "reinit-with-new-extensions",
+            3 => "reinit-into-other-suite",
+            _ => "reinit-plain",
+        });
         for &p in &old_members {
             if p != committer {
-                if let Err(e) = w.process(p, &built.out.commit_message) {
+                if let Err(e) = w.process(p, &built.commit_message) {
                     ctx.violation(format!("reinit-commit-refused|{}", err_name(&e)), format!("{e:?} [{label}]"));
                     return;
                 }
@@ -198,7 +219,24 @@ fn run_case(c: &Case, ctx: &mut Ctx) {
             }
         }
         let expect_ok = new_ids == old_ids;
-        let rc = |w: &World, p: usize| w.g(p).clone().get_reinit_client(None, None);
+        // in another suite everybody continues with a key of the new signature scheme
+        let mut new_keys: std::collections::BTreeMap<usize, (mls_rs::crypto::SignatureSecretKey, mls_rs::identity::SigningIdentity)> = Default::default();
+        if c.variant == 3 {
+            use mls_rs::CipherSuiteProvider;
+            for &p in old_members.iter().chain(w.outsiders().iter()) {
+                let cs = crate::providers::cs_provider(w.parties[p].which, new_suite).expect("MACHINERY: suite 2");
+                let (sk, pk) = cs.signature_key_generate().expect("MACHINERY: keygen");
+                let cred = mls_rs::identity::basic::BasicCredential::new(w.parties[p].name.as_bytes().to_vec());
+                new_keys.insert(p, (sk, mls_rs::identity::SigningIdentity::new(cred.into_credential(), pk)));
+            }
+        }
+        let rc = |w: &World, p: usize| {
+            let (sk, id) = match new_keys.get(&p) {
+                Some((sk, id)) => (Some(sk.clone()), Some(id.clone())),
+                None => (None, None),
+            };
+            w.g(p).clone().get_reinit_client(sk, id)
+        };
         let Ok(creator_rc) = rc(&w, c.creator) else {
             ctx.violation("no-reinit-client", format!("get_reinit_client failed for a member that processed the re-init [{label}]"));
             return;
@@ -219,8 +257,38 @@ fn run_case(c: &Case, ctx: &mut Ctx) {
         match (creator_rc.commit(kps, Default::default(), now), expect_ok) {
             (Ok((g, welcomes)), true) => {
                 ctx.outcome("reinit:created");
-                if g.current_epoch() != 1 || g.group_id() != REINIT_GROUP_ID {
-                    ctx.violation("reinit-group-parameters-wrong", format!("successor has epoch {} / group id {:?} [{label}]", g.current_epoch(), g.group_id()));
+                let gid_ok = match &new_gid {
+                    Some(id) => g.group_id() == &id[..],
+                    None => !g.group_id().is_empty() && g.group_id() != &w.group_id[..],
+                };
+                if g.current_epoch() != 1 || !gid_ok || g.cipher_suite() != new_suite || g.context().extensions != new_ext {
+                    ctx.violation("reinit-group-parameters-wrong", format!("successor has epoch {} / group id {:?} / suite {:?} / extensions {:?}, the re-init proposal said {new_gid:?} / {new_suite:?} / {new_ext:?} [{label}]", g.current_epoch(), g.group_id(), g.cipher_suite(), g.context().extensions));
+                }
+                // a group with the successor's parameters that is NOT linked to the old group
+                // (no re-init PSK) must be refused by ReinitClient::join
+                if let Some(&j) = c.others.first() {
+                    ctx.eval();
+                    let unlinked = (|| {
+                        let kp = rc(&w, j).ok()?.generate_key_package(now).ok()?;
+                        let (client, _, _) = match new_keys.get(&c.creator) {
+                            Some((sk, id)) => make_client(&WorldCfg { suite: 2, ..w.cfg.clone() }, 77, &w.parties[c.creator].name, Some((sk.clone(), id.clone()))),
+                            None => make_client(&w.cfg, 77, &w.parties[c.creator].name, Some((w.parties[c.creator].signer.clone(), w.parties[c.creator].identity.clone()))),
+                        };
+                        let mut ug = client.create_group_with_id(g.group_id().to_vec(), new_ext.clone(), Default::default(), now).ok()?;
+                        let out = ug.commit_builder().add_member(kp).ok()?.build().ok()?;
+                        ug.apply_pending_commit().ok()?;
+                        out.welcome_messages.first().cloned()
+                    })();
+                    match unlinked {
+                        Some(wm) => match rc(&w, j).and_then(|r| r.join(&wm, None, now)) {
+                            Ok(_) => ctx.violation("reinit-joined-group-not-linked-to-old-group", format!("{} joined, through its ReinitClient, a group that has the successor's id and parameters but was created without the old group's re-init PSK [{label}]", w.parties[j].name)),
+                            Err(e) => {
+                                ctx.outcome(format!("reinit:unlinked-group-refused:{}", err_name(&e)));
+                                ctx.goal("reinit-unlinked-group-refused");
+                            }
+                        },
+                        None => ctx.outcome("reinit:unlinked-group-not-constructible"),
+                    }
                 }
                 for &p in &c.others {
                     let Some(wm) = welcomes.first() else { continue };
@@ -333,7 +401,9 @@ pub fn cases(tier: &str) -> Vec<Case> {
                 for s in sets {
                     let perms = if quick && s.len() > 2 { vec![s.clone(), s.iter().rev().copied().collect()] } else { permutations(&s) };
                     for others in perms {
-                        out.push(Case { seed, branch, creator, others });
+                        for variant in if branch { vec![0u8] } else { vec![0u8, 1, 2, 3] } {
+                            out.push(Case { seed, branch, creator, others: others.clone(), variant });
+                        }
                     }
                 }
             }
@@ -345,10 +415,10 @@ pub fn cases(tier: &str) -> Vec<Case> {
 pub fn meta(tier: &str) -> Meta {
     Meta {
         level: "model_checking",
-        rule: "old-group gallery (dense 3/4, interior blank leaf 3/4, after a signature re-key, after an external commit) x re-init / branch x every member as creator x every successor member set (all subsets of the other members, superset by an outsider, each member replaced by an outsider) x every key-package order; expected result from the identity-set predicate (re-init: equal, branch: subset); successful successors are joined by every member (ReinitClient::join / join_subgroup) and compared; outsiders, ex-members and cross-used Welcomes must be refused; after the re-init commit every old member must refuse to commit; states = cases".into(),
+        rule: "old-group gallery (dense 3/4, interior blank leaf 3/4, after a signature re-key, after an external commit) x re-init / branch x every member as creator x every successor member set (all subsets of the other members, superset by an outsider, each member replaced by an outsider) x every key-package order; expected result from the identity-set predicate (re-init: equal, branch: subset); successful successors are joined by every member (ReinitClient::join / join_subgroup) and compared; outsiders, ex-members and cross-used Welcomes must be refused; after the re-init commit every old member must refuse to commit; every re-init case in 4 parameter variants (given group id; none; changed group context extensions; other cipher suite with fresh signature keys): the successor must carry exactly the announced parameters, and a group with the successor's id and parameters that was created without the old group's re-init PSK must be refused by ReinitClient::join; states = cases".into(),
         assumptions: default_assumptions(),
         bounds: bounds_json(&[("cases", json!(cases(tier).len())), ("identities", json!(6))]),
-        required_goals: vec![],
+        required_goals: vec!["reinit-plain", "reinit-without-group-id", "reinit-with-new-extensions", "reinit-into-other-suite", "reinit-unlinked-group-refused"],
         min_outcomes: 8,
         workers: 16,
     }
